@@ -8,7 +8,7 @@
 use kira::{
 	clock::{ClockSpeed, ClockTime},
 	sound::static_sound::{StaticSoundData, StaticSoundHandle, StaticSoundSettings},
-	track::{TrackBuilder, TrackHandle, TrackPlaybackState},
+	track::{SpatialTrackBuilder, SpatialTrackHandle, TrackBuilder, TrackHandle, TrackPlaybackState},
 	Frame, Panning, StartTime, Tween,
 };
 use kv::{common::*, scene::*};
@@ -93,7 +93,45 @@ fn decode_left(samples: &[f32], depth: u64) -> (i64, i64) {
 	(a, if a == -4 { -4 } else if a == -2 { -1 } else { c })
 }
 
-fn tstate(h: &Option<TrackHandle>) -> &'static str {
+/// a plain track, or a spatial track made transparent (listener and emitter at the same place, no attenuation, strength 0):
+/// whatever C12 says about tracks holds for both kinds
+enum Tk {
+	P(TrackHandle),
+	S(SpatialTrackHandle),
+}
+macro_rules! tk {
+	($h:expr, $x:ident => $e:expr) => {
+		match $h {
+			Tk::P($x) => $e,
+			Tk::S($x) => $e,
+		}
+	};
+}
+impl Tk {
+	fn state(&self) -> TrackPlaybackState {
+		tk!(self, h => h.state())
+	}
+	fn pause(&mut self, t: Tween) {
+		tk!(self, h => h.pause(t))
+	}
+	fn resume(&mut self, t: Tween) {
+		tk!(self, h => h.resume(t))
+	}
+	fn resume_at(&mut self, st: StartTime, t: Tween) {
+		tk!(self, h => h.resume_at(st, t))
+	}
+	fn num_sub_tracks(&self) -> usize {
+		tk!(self, h => h.num_sub_tracks())
+	}
+	fn add_sub_track(&mut self, b: TrackBuilder) -> TrackHandle {
+		tk!(self, h => h.add_sub_track(b).unwrap())
+	}
+	fn play(&mut self, d: StaticSoundData) -> StaticSoundHandle {
+		tk!(self, h => h.play(d).unwrap())
+	}
+}
+
+fn tstate(h: &Option<Tk>) -> &'static str {
 	match h {
 		None => "gone",
 		Some(h) => match guarded(|| h.state()) {
@@ -120,7 +158,7 @@ fn run_scenario(sc: &Value, t: &mut Tracer) {
 	let pb = sc["persistB"].as_bool().unwrap_or(false);
 	let pc = sc["persistC"].as_bool().unwrap_or(false);
 	let depth = sc["depth"].as_u64().unwrap_or(2);
-	t.reset(json!({"persist": {"A": pa, "B": pb, "C": pc}, "n": NF, "depth": depth, "src": sc["src"]}));
+	t.reset(json!({"persist": {"A": pa, "B": pb, "C": pc}, "n": NF, "depth": depth, "spatialB": sc["spatialB"].as_bool().unwrap_or(false), "src": sc["src"]}));
 	let mut sim = Sim::basic();
 	let mut clock = sim.manager.add_clock(ClockSpeed::TicksPerSecond(2.0)).unwrap();
 	clock.start();
@@ -131,9 +169,20 @@ fn run_scenario(sc: &Value, t: &mut Tracer) {
 		.manager
 		.add_sub_track(TrackBuilder::new().persist_until_sounds_finish(pa))
 		.unwrap();
-	let mut b = a
-		.add_sub_track(TrackBuilder::new().persist_until_sounds_finish(pb))
-		.unwrap();
+	// spatialB: track B is a (transparent) spatial track
+	let listener = sim.manager.add_listener(glam::Vec3::ZERO, glam::Quat::IDENTITY).unwrap();
+	let mut b = if sc["spatialB"].as_bool().unwrap_or(false) {
+		Tk::S(
+			a.add_spatial_sub_track(
+				listener.id(),
+				glam::Vec3::ZERO,
+				SpatialTrackBuilder::new().persist_until_sounds_finish(pb).attenuation_function(None).spatialization_strength(0.0),
+			)
+			.unwrap(),
+		)
+	} else {
+		Tk::P(a.add_sub_track(TrackBuilder::new().persist_until_sounds_finish(pb)).unwrap())
+	};
 	let mk = |pan: Panning| StaticSoundData {
 		sample_rate: RATE,
 		frames: mono_coded(250),
@@ -141,13 +190,11 @@ fn run_scenario(sc: &Value, t: &mut Tracer) {
 		slice: None,
 	};
 	let sa: StaticSoundHandle = a.play(mk(Panning::LEFT)).unwrap();
-	let sb: StaticSoundHandle = b.play(mk(Panning::RIGHT)).unwrap();
+	let sb: StaticSoundHandle = b.play(mk(Panning::RIGHT));
 	let mut hc = None;
 	let mut sounds = vec![sa, sb];
 	if depth == 3 {
-		let mut c = b
-			.add_sub_track(TrackBuilder::new().persist_until_sounds_finish(pc))
-			.unwrap();
+		let mut c = b.add_sub_track(TrackBuilder::new().persist_until_sounds_finish(pc));
 		// 1024 times quieter than SA: -60.206 dB is exactly 2^-10 only approximately, so scale the frames instead
 		let quiet: Arc<[Frame]> = (0..250)
 			.map(|i| {
@@ -160,9 +207,9 @@ fn run_scenario(sc: &Value, t: &mut Tracer) {
 			.play(StaticSoundData { sample_rate: RATE, frames: quiet, settings: StaticSoundSettings::new().panning(Panning::LEFT), slice: None })
 			.unwrap();
 		sounds.push(sc_h);
-		hc = Some(c);
+		hc = Some(Tk::P(c));
 	}
-	let mut ha = Some(a);
+	let mut ha = Some(Tk::P(a));
 	let mut hb = Some(b);
 	// no warm-up callbacks here: the first callbacks are part of the session (tracks not yet picked up);
 	// the clock therefore shows `callbacks` ticks during callback number `callbacks`
